@@ -69,8 +69,9 @@ CHECKS = [
   'runs is implied, not observed.'),
  ('C14', 'other', 'static typestate and must-pass-through analysis',
   'Partial (structural) decision: unchecked allocations, failure propagation to URI_ERROR_MALLOC, per-function block typestate on '
-  'all paths, cleanup-on-failure of producers, revert protocol of in-place operations. Not decided: leak freedom for structures '
-  'that already escaped into the URI (list surgery), i.e. the full statement for every k.'),
+  'all paths, cleanup-on-failure of producers, revert protocol of in-place operations, list integrity at every return (freed '
+  'node unlinked, linked malloc node terminated). Not decided: leak freedom for structures that already escaped into the URI '
+  'in general, i.e. the full statement for every k.'),
  ('C15', 'other', 'static symbolic path analysis of the decorated allocator functions',
   'Partial: header offset agreement, overflow guards, realloc decision table, copy length, wiring of the completed manager. Not '
   'decided: behaviour over allocator histories.'),
@@ -78,11 +79,11 @@ CHECKS = [
   'Escape and unescape loops are turned into finite transducers from source (every character value x flag x state); per-transition '
   'bounds, alphabet, terminator, in-place invariant, decode tables, and the composition unescape(escape(c)) = c.'),
  ('C17', 'other', 'static symbolic bounded-write analysis with callee write summaries and interval guards',
-  'Partial: writes of the query composer bounded by the checked estimate, estimate >= escape bound, INT_MAX guards, item count. Not '
+  'Partial: writes of the query composer bounded by the checked estimate, estimate >= escape bound, INT_MAX guards, item count, no silent UriBool/enum conversion of the break option at any call. Not '
   'decided: compose/dissect round trip.'),
  ('C19', 'proof', 'static sibling isomorphism, dimension analysis, conversion lint',
   'Structural statement: every A/W function pair is the same tree modulo the character type; every size is in characters or '
-  'converted by sizeof(URI_CHAR); no signedness-sensitive use of a character value.'),
+  'converted by sizeof(URI_CHAR) (no bare constant added to a byte count); no signedness-sensitive use of a character value.'),
  ('C20', 'proof', 'static effect analysis + static-storage census',
   'No written global or static, documented inputs never written at any depth on any path, the mask query works on a private copy, '
   'only stateless libc callees.'),
